@@ -158,7 +158,18 @@ def job_parseblock(seed):
                 if 'vector<' in ty and 'string' in ty:
                     return toks           # contract of Tokenizer(str, ":").ToVector(): some list of tokens
                 return NotImplemented
-            cb = {'decide': P.decide, 'decl': decl, 'stoi': lambda t, *a: SInt(vals[t['tok']])}
+            ndiv = [0]
+            def int_div(a, b2):
+                """C integer division (truncation toward zero) by its contract: a = q*b + r, |r| < |b|, r has the sign of a (or is 0); a zero divisor is undefined behaviour"""
+                ae, be = SInt.ex(a), SInt.ex(b2)
+                if P.decide(sp.Eq(be, 0)):
+                    raise rvc.Unsupported('integer division by zero is reachable')
+                k = ndiv[0]; ndiv[0] += 1
+                q, r = z3.Int('divq%d' % k), z3.Int('divr%d' % k)
+                za, zb2 = rvc.to_z3(ae), rvc.to_z3(be)
+                P.pc.extend([za == q * zb2 + r, z3.If(zb2 > 0, z3.And(r < zb2, r > -zb2), z3.And(r < -zb2, r > zb2)), z3.Implies(za >= 0, r >= 0), z3.Implies(za <= 0, r <= 0)])
+                return SInt(sp.Symbol('divq%d' % k, integer=True))
+            cb = {'decide': P.decide, 'decl': decl, 'stoi': lambda t, *a: SInt(vals[t['tok']]), 'int_div': int_div}
             this = {'blocks_': blocks}
             ex = Exec({'str': 'STR'}, cb, fns, this)
             status = 'accepted'
